@@ -638,3 +638,8 @@ CHECKS["C18"]["required_classes"]["all"] = CHECKS["C18"].get("required_classes",
 CHECKS["C18"]["required_classes"]["all"] += ["reload:hook-environment-checked", "reload:check-fails-other"]
 CHECKS["C20"]["required_classes"]["all"] += ["unreachable-socket-path-of-107..109-bytes"]
 CHECKS["C04"]["required_classes"]["all"] += ["agent-started:socket-activated(runsa)"]
+CHECKS["C03"]["required_classes"]["all"] += ["work-area-unusable"]
+CHECKS["C04"]["required_classes"]["all"] += ['agent-options:upgrades="local",policy=true']
+CHECKS["C06"]["required_classes"]["all"] += ["login:another-users-password"]
+CHECKS["C10"]["jobs"].append(J("stalled-clients", VBB, "TestC10StalledClients", {"shards": 4, "checks": 5}, {"shards": 16, "checks": 150}))
+CHECKS["C10"]["required_classes"]["all"] += ["stalled-client:sasl"]
